@@ -438,6 +438,9 @@ class Host(HostBase):
             raise self.raise_("TypeError", f"{k} value is not subscriptable", node)
         if isinstance(v, SymStr):
             if isinstance(idx, SliceV):
+                one = self._one_char_slice(v, idx, node)
+                if one is not None:
+                    return one
                 return self.substr(v, idx, node)
             f = self.as_lin(idx)
             if f is None:
@@ -490,6 +493,24 @@ class Host(HostBase):
         if isinstance(v, ExternalV):
             return v  # typing generics such as List[int]
         raise self.unsupported(node, f"subscript of {v!r}")
+
+    def _one_char_slice(self, v: SymStr, idx: Any, node: Any) -> Optional[AV]:
+        """`s[i:i+1]` with i >= 0: the character at i, or "" when i is at or beyond the end (slices never raise)."""
+        if idx.step is not None and not (isinstance(idx.step, Const) and idx.step.value in (None, 1)):
+            return None
+        a = self.as_lin(idx.start) if idx.start is not None else None
+        b = self.as_lin(idx.stop) if idx.stop is not None else None
+        if a is None or b is None:
+            return None
+        d = b - a
+        if not (d.is_const() and d.const == 1):
+            return None
+        if not self.ctx.oct.entails_le0(-a):
+            return None
+        n = Lin.var(v.len_var)
+        if self.ctx.decide_le0(a - n + Lin.k(1)):
+            return self.subscript(v, IntV(a), node)
+        return Const("")
 
     def list_item(self, v: Sym, key: Any) -> AV:
         k = ("item", v.id, key)
